@@ -371,9 +371,32 @@ pub fn hostile_strategy(parser: ParserId) -> BoxedStrategy<Vec<u8>> {
                 proptest::collection::vec(big, 9),
                 5usize..=9,
                 proptest::collection::vec(any::<u8>(), 0..40),
-                0u8..6,
+                0u8..9,
             )
                 .prop_map(move |(f, nf, tail, mode)| {
+                    if mode >= 6 && binary {
+                        // delta codes of every length 1..=11 with arbitrary payload, in a file that is
+                        // otherwise fine: one gate after I inputs
+                        let t = |k: usize| tail.get(k).copied().unwrap_or(0);
+                        let i: u128 = match t(0) % 4 {
+                            0 => 1,
+                            1 => 70,
+                            2 => 1 << 61,
+                            _ => (1 << 62) + 5,
+                        };
+                        let mut s = format!("aig {} {} 0 0 1\n", i + 1, i).into_bytes();
+                        for v in 0..2 {
+                            let n = 1 + (t(1 + v) % 11) as usize;
+                            for k in 0..n - 1 {
+                                s.push(0x80 | t(3 + v * 11 + k));
+                            }
+                            s.push(t(30 + v) & 0x7f);
+                        }
+                        if mode == 8 {
+                            s.extend_from_slice(&tail[tail.len().min(32)..]);
+                        }
+                        return s;
+                    }
                     if mode == 5 && tail.first().map_or(false, |b| b % 3 == 0) {
                         // exactly at a literal type's limit: M = (MAX_CODE - 1) / 2, I + L + A = M
                         let m: u128 = [127u128, 32767, 2147483647, 9223372036854775807][tail.len() % 4];
